@@ -34,6 +34,9 @@ type RunSpec struct {
 	// Multi: 0 = the real regular handler (one request); 2..3 = a harness handler whose single agent
 	// key (the repository's AgentKey) carries that many signing requests
 	Multi int
+	// Reuse: run with the real handler object (and forwarded connection) built by the latest earlier run
+	// of the real handler, whose configuration (validity, key slots) then applies.
+	Reuse bool
 }
 
 type Case struct {
@@ -69,6 +72,9 @@ func gen(t *rapid.T) Case {
 			if r.Outcome == "noslot" {
 				r.Outcome = "caerr"
 			}
+		}
+		if i > 0 && r.Multi == 0 && r.Outcome != "noslot" {
+			r.Reuse = rapid.IntRange(0, 2).Draw(t, l+"Reuse") == 0
 		}
 		nc := rapid.IntRange(0, r.NCerts+1).Draw(t, l+"NComments")
 		for j := 0; j < nc; j++ {
@@ -143,6 +149,15 @@ func exec(c Case) (vh.Outcome, error) {
 
 	provisioned := map[string][]string{} // per handler: certificates of its last successful run
 	successes, failAfterSuccess := 0, false
+	var lastReal gensign.Handler
+	var lastValidity uint64
+	var lastConn interface{ Close() error }
+	reused := 0
+	defer func() {
+		if lastConn != nil {
+			lastConn.Close()
+		}
+	}()
 	for ri, r := range c.Runs {
 		where := fmt.Sprintf("run %d (%s, %d certs, comments %q, validity %d)", ri, r.Outcome, r.NCerts, r.Comments, r.Validity)
 		out.Classes = append(out.Classes, "outcome="+r.Outcome)
@@ -171,17 +186,24 @@ func exec(c Case) (vh.Outcome, error) {
 		} else {
 			p.SetPlan(nil)
 		}
+		reuse := r.Reuse && r.Multi == 0 && lastReal != nil
 		conn, derr := vh.DialProxy(p)
 		if derr != nil {
 			return out, nil
 		}
 		var h gensign.Handler
 		hname := "real"
+		if reuse {
+			r.Validity = lastValidity
+			reused++
+		}
 		checkValidity := r.Validity
 		if r.Multi > 0 {
 			hname, checkValidity = "multi", 3600
 			fh := &vh.FakeHandler{ID: "m0", Accept: r.Outcome != "noauth", Log: &vh.HandlerLog{}, Agent: agent.NewClient(conn), NKeys: 1, NReqs: r.Multi}
 			h = fh
+		} else if reuse {
+			h = lastReal
 		} else {
 			rh, herr := regular.NewHandler(conf, conn)
 			if herr != nil {
@@ -189,6 +211,12 @@ func exec(c Case) (vh.Outcome, error) {
 				return out, vh.Errf("%s: NewHandler: %v", where, herr)
 			}
 			h = rh
+			if r.Outcome != "noslot" {
+				if lastConn != nil {
+					lastConn.Close()
+				}
+				lastReal, lastValidity, lastConn = rh, r.Validity, conn
+			}
 		}
 		param, _ := vh.BuildParam(vh.ParamSpec{LogName: "alice", Policy: "NONS", ReqUser: "alice", ReqHost: "laptop", ClientIP: "172.17.0.1", TransID: fmt.Sprintf("%010x", ri)})
 		before := ringEntries(p)
@@ -196,7 +224,9 @@ func exec(c Case) (vh.Outcome, error) {
 		_ = checkValidity
 		var runErr error
 		cr := vh.Catch(func() { runErr = gensign.Run(context.Background(), param, []gensign.Handler{h}, ca) })
-		conn.Close()
+		if lastConn != interface{ Close() error }(conn) {
+			conn.Close()
+		}
 		p.SetPlan(nil)
 		if cr != nil {
 			return out, vh.Errf("%s: Run crashed: %v", where, cr)
@@ -289,6 +319,9 @@ func exec(c Case) (vh.Outcome, error) {
 	_ = addsBase
 	_ = rand.Reader
 	_ = bytes.Equal
+	if reused > 0 {
+		out.Classes = append(out.Classes, "handler-object-reused")
+	}
 	out.NonTrivial = (successes >= 2 || failAfterSuccess) && len(c.Pre) >= 1
 	return out, nil
 }
@@ -305,7 +338,7 @@ func equal(a, b []string) bool {
 	return true
 }
 
-const rule = "histories against one recording keyring agent: 0..5 pre-existing identities (plain RSA / ECDSA / Ed25519 keys and foreign certificates whose comments are near-misses of the handler label: other case, truncation, '-' for '.', missing first letter, 'private-key', empty, non-ASCII; comments containing the exact handler name are not generated), then 1..6 runs - of the real handler, or (a quarter) of a harness handler whose one agent key (the repository's AgentKey) carries 2..3 signing requests - each succeeding or failing {agent refuses the challenge / handler rejects, no key slot configured, CA error - for several requests: on the last one, after the earlier ones were signed}, the CA returning 1..3 certificates with 0..n+1 comments (present / empty / containing the handler name), validity from {1, 2, 3599, 3600, 43200, 2^31, 315360000} or random in 1 s..10 y. Oracle after a successful run: the new private key and every returned certificate are listed, signing with each certificate yields a signature verifying under its key, every AddedKey the agent received has 0 < lifetime and lifetime >= validity, certificates of the earlier generation are absent, the certificate set is exactly foreign + this generation, every pre-existing identity is present with identical blob and comment; after a failing run the certificate set is unchanged. Non-trivial: >= 2 successful runs or a failure after a success, with >= 1 pre-existing identity."
+const rule = "histories against one recording keyring agent: 0..5 pre-existing identities (plain RSA / ECDSA / Ed25519 keys and foreign certificates whose comments are near-misses of the handler label: other case, truncation, '-' for '.', missing first letter, 'private-key', empty, non-ASCII; comments containing the exact handler name are not generated), then 1..6 runs - of the real handler (a third of the later ones through the handler object and forwarded connection an earlier run built, class handler-object-reused), or (a quarter) of a harness handler whose one agent key (the repository's AgentKey) carries 2..3 signing requests - each succeeding or failing {agent refuses the challenge / handler rejects, no key slot configured, CA error - for several requests: on the last one, after the earlier ones were signed}, the CA returning 1..3 certificates with 0..n+1 comments (present / empty / containing the handler name), validity from {1, 2, 3599, 3600, 43200, 2^31, 315360000} or random in 1 s..10 y. Oracle after a successful run: the new private key and every returned certificate are listed, signing with each certificate yields a signature verifying under its key, every AddedKey the agent received has 0 < lifetime and lifetime >= validity, certificates of the earlier generation are absent, the certificate set is exactly foreign + this generation, every pre-existing identity is present with identical blob and comment; after a failing run the certificate set is unchanged. Non-trivial: >= 2 successful runs or a failure after a success, with >= 1 pre-existing identity."
 
 func TestC03Provision(t *testing.T) {
 	vh.Run(t, vh.Spec[Case]{Property: "C03", Name: "TestC03Provision", Rule: rule, Gen: gen, Exec: exec})
